@@ -7,7 +7,7 @@ ID = "C05"
 HARNESS_PKG = "h_ingest"
 HARNESS_ARGS = ["c05"]
 COQ_IMPORTS = "From PV Require Import Model.Ingest Lib.IngestObs Oracle.C05."
-COQ_SHARD = 60
+COQ_SHARD = 150
 TECHNIQUE = ("Coq proof (low-water-mark invariant preserved by every later delivery, by induction over the delivery list) + differential "
              "correspondence of the Gallina model with the real ingest_operation + LogPrune on an in-memory SqliteStore")
 LEVEL_TEXT = ("Theorem C05_no_resurrection is proved in Coq for every well-formed history (non-equivocating authors) and every "
